@@ -361,9 +361,24 @@ func (l *Lowerer) loopSpec() (int, *LoopSpec) {
 		top.loopOrd++
 		if top.contract != nil {
 			ls = top.contract.Loops[ord]
+			if name, ok := top.contract.RangeNames[l.pendingRangeKey]; ok && l.pendingRangeKey != "" {
+				ls = top.contract.NamedLoops[name]
+				if ls == nil {
+					ls = &LoopSpec{Name: name}
+				}
+			}
 		}
 	}
+	l.pendingRangeKey = ""
 	return ord, ls
+}
+
+// loopLabel: the name of a loop in obligation names: "loop.<name>" for loops addressed by name, else "loop<ordinal>".
+func loopLabel(ord int, ls *LoopSpec) string {
+	if ls != nil && ls.Name != "" {
+		return "loop." + ls.Name
+	}
+	return fmt.Sprintf("loop%d", ord)
 }
 
 func (l *Lowerer) sameTop(fr *frame) bool {
@@ -393,7 +408,7 @@ func (l *Lowerer) autoInv() *Clause {
 func (l *Lowerer) invClauses(ls *LoopSpec, hidden map[string]envEntry, kind string, ord int, node ast.Node) {
 	if c := l.autoInv(); c != nil {
 		t := l.specTerm(c, hidden)
-		l.assertOb(kind, fmt.Sprintf("loop%d.state", ord), c.Src, node, t, l.curProps)
+		l.assertOb(kind, loopLabel(ord, ls)+".state", c.Src, node, t, l.curProps)
 	}
 	if ls == nil {
 		return
@@ -405,7 +420,7 @@ func (l *Lowerer) invClauses(ls *LoopSpec, hidden map[string]envEntry, kind stri
 		}
 		t := l.specTerm(c, hidden)
 		l.specPos = savedPos
-		lbl := fmt.Sprintf("loop%d", ord)
+		lbl := loopLabel(ord, ls)
 		if tg := clauseTag(c); tg != "" {
 			lbl += "." + tg
 		}
@@ -564,7 +579,7 @@ func (l *Lowerer) forStmt(x *ast.ForStmt, label string) {
 		iv := l.tmp("Int")
 		l.assign(iv, "Int", counterInit)
 		cinv = Le(V(iv, "Int"), V(counter, "Int"))
-		l.assertOb("inv-entry", fmt.Sprintf("loop%d.counter", ord), "counter stays >= its initial value", x, cinv, nil)
+		l.assertOb("inv-entry", loopLabel(ord, ls)+".counter", "counter stays >= its initial value", x, cinv, nil)
 	}
 	l.invClauses(ls, nil, "inv-entry", ord, x)
 	l.jump(head)
@@ -591,7 +606,7 @@ func (l *Lowerer) forStmt(x *ast.ForStmt, label string) {
 		l.stmt(x.Post, "")
 	}
 	if cinv != nil {
-		l.assertOb("inv-preserve", fmt.Sprintf("loop%d.counter", ord), "counter stays >= its initial value", x, cinv, nil)
+		l.assertOb("inv-preserve", loopLabel(ord, ls)+".counter", "counter stays >= its initial value", x, cinv, nil)
 	}
 	l.invClauses(ls, nil, "inv-preserve", ord, x)
 	l.decreasesCheck(ls, nil, decVar, ord, x)
@@ -680,7 +695,7 @@ func (l *Lowerer) iterEnd(ls *LoopSpec, hidden map[string]envEntry, ord int, nod
 		l.specPos = loopBodyPos(node)
 		t := l.specTerm(c, hidden)
 		l.specPos = savedPos
-		lbl := fmt.Sprintf("loop%d", ord)
+		lbl := loopLabel(ord, ls)
 		if c.Label != "" {
 			lbl += "." + c.Label
 		}
@@ -703,7 +718,7 @@ func (l *Lowerer) decreasesCheck(ls *LoopSpec, hidden map[string]envEntry, decVa
 		return
 	}
 	d := l.specTerm(ls.Decreases, hidden)
-	l.assertOb("decreases", fmt.Sprintf("loop%d", ord), ls.Decreases.Src, node,
+	l.assertOb("decreases", loopLabel(ord, ls), ls.Decreases.Src, node,
 		And(Lt(d, V(decVar, "Int")), Le(IntLit(0), V(decVar, "Int"))), clausePropsOr(l.fr, ls.Decreases, l.curProps))
 }
 
@@ -713,6 +728,9 @@ func (l *Lowerer) rangeStmt(x *ast.RangeStmt, label string) {
 	l.tmpN++
 	id := l.tmpN
 	define := x.Tok == token.DEFINE
+	// a loopname directive addresses this loop by the source text of the ranged expression
+	rangeKey := strings.ReplaceAll(l.exprText(x.X), " ", "")
+	l.pendingRangeKey = rangeKey
 	setKV := func(e ast.Expr, v *Term, vt types.Type) {
 		if e == nil {
 			return
@@ -786,6 +804,9 @@ func (l *Lowerer) rangeStmt(x *ast.RangeStmt, label string) {
 		head, post, exit, li, ord, ls := l.beginLoop(label, nil)
 		// $i<ordinal>: the index of this loop, also visible in the specifications of nested loops
 		outerIdx := map[string]envEntry{fmt.Sprintf("$i%d", ord): {iv, types.Typ[types.Int]}}
+		if ls != nil && ls.Name != "" {
+			outerIdx["$i_"+ls.Name] = envEntry{iv, types.Typ[types.Int]}
+		}
 		l.pushEnv(outerIdx)
 		defer l.popEnv()
 		l.invClauses(ls, hidden, "inv-entry", ord, x)
